@@ -215,14 +215,35 @@ def state_focus():
   return out
 
 
+def _jsonish(v):
+  from vf.ref import render  # pylint: disable=g-import-not-at-top
+  return render.jsonish(v)
+
+
 def summary(d):
   """What a watcher can tell apart in a state snapshot (TestState._asdict() is a base-type rendering)."""
   rec = d['test_record']
   rps = d.get('running_phase_state')
   return (d['status'], len(rec.get('log_records', [])), len(rec.get('phases', [])),
           rps.get('name') if rps else None,
-          tuple(sorted((k, m.get('outcome'), repr(m.get('measured_value', '<none>'))) for k, m in rps.get('measurements', {}).items())) if rps else (),
+          tuple(sorted((k, m.get('outcome'), repr(_jsonish(m.get('measured_value', '<none>')))) for k, m in rps.get('measurements', {}).items())) if rps else (),
           rec.get('outcome'))
+
+
+def truth(st):
+  """The same summary read from the in-memory objects (no rendering cache involved)."""
+  from vf.ref import render  # pylint: disable=g-import-not-at-top
+  rec = st.test_record
+  rps = st.running_phase_state
+  meas = ()
+  if rps is not None:
+    rows = []
+    for k, m in rps.measurements.items():
+      r = render.measurement(m)
+      rows.append((k, r['outcome'], repr(render.jsonish(r.get('measured_value', '<none>')))))
+    meas = tuple(sorted(rows))
+  return (st._status.name, len(rec.log_records), len(rec.phases), rps.name if rps is not None else None, meas,  # pylint: disable=protected-access
+          rec.outcome.name if rec.outcome else None)
 
 
 def scenario_q(mode='pass'):
@@ -252,7 +273,7 @@ def scenario_q(mode='pass'):
           if fired:
             stale_timeouts = 0
             break
-          now = summary(st.as_base_types())        # (built afresh: not through whatever _asdict() may cache)
+          now = truth(st)        # (read from the objects themselves: no rendering cache can hide a change)
           if now != seen and not ev.is_set():
             stale_timeouts += 1
             if stale_timeouts >= 2:
@@ -269,14 +290,16 @@ def scenario_q(mode='pass'):
 
     wt = threading.Thread(target=watcher, name='watcher')
 
-    @h.measures(h.Measurement('m'), h.Measurement('m2'))
+    @h.measures(h.Measurement('m'), h.Measurement('m2'), h.Measurement('m3'))
     def p1(test):
       wt.start()
       attached.wait()
       test.measurements.m = 1
       test.logger.info('hello')
       test.measurements.m2 = 2          # two in a row: the first is still pending when the second is set
-      time.sleep(0.5)                   # ... and then the phase is busy for a while: nothing else would wake a watcher
+      time.sleep(0.01)                  # (the watcher starts its next snapshot here ...)
+      test.measurements.m3 = 3          # ... and this one may arrive while that snapshot is being taken
+      time.sleep(0.5)                   # then the phase is busy for a while: nothing else would wake a watcher
 
     def p2(test):
       if mode == 'stop':
@@ -327,6 +350,113 @@ def check_q(mode):
                   'the state changed from %r to %r after the snapshot was taken but the event handed out with it was never set' % (seen, now), rep))
     return out
   return check
+
+
+# ---- harness U: a frontend-aware plug (UserInput) driven through operation sequences, two watchers --------------------
+U_OPS = ['start', 'respond', 'respond_wrong', 'remove', 'wait_timeout', 'prompt_timeout']
+
+
+def scenario_u(ops):
+  htf.init()
+  from openhtf.plugs import user_input  # pylint: disable=g-import-not-at-top
+
+  def fn(sched):
+    plug = user_input.UserInput()
+    res = {'missed': [], 'errors': [], 'done': False}
+
+    def watcher(tag):
+      stale = 0
+      while True:
+        snap, ev = plug.asdict_with_event()
+        while True:
+          if ev.wait(0.2):
+            stale = 0
+            break
+          now = plug._asdict()  # pylint: disable=protected-access
+          if now != snap and not ev.is_set():
+            stale += 1
+            if stale >= 2:
+              res['missed'].append((tag, snap, now))
+              return
+            continue
+          stale = 0
+          if res['done'] and now == snap:
+            return
+          if ev.is_set():
+            break
+
+    ws = [threading.Thread(target=watcher, args=(t,), name='watcher' + t) for t in ('A', 'B')]
+    for w in ws:
+      w.start()
+    pid = [None]
+    for op in ops:
+      try:
+        if op == 'start':
+          pid[0] = plug.start_prompt('msg %d' % len(res['errors']), text_input=True)
+        elif op == 'respond':
+          plug.respond(pid[0], 'answer')
+        elif op == 'respond_wrong':
+          plug.respond('not-the-id', 'answer')
+        elif op == 'remove':
+          plug.remove_prompt()
+        elif op == 'wait_timeout':
+          plug.wait_for_prompt(0.05)
+        elif op == 'prompt_timeout':
+          plug.prompt('timed', timeout_s=0.05)
+      except (user_input.PromptUnansweredError, user_input.MultiplePromptsError) as e:
+        res['errors'].append(type(e).__name__)
+    res['done'] = True
+    for w in ws:
+      w.join()
+    try:
+      plug.tearDown()
+    except Exception:  # pylint: disable=broad-except
+      pass
+    return res
+
+  return fn
+
+
+def execute_u(ops, choices):
+  htf.init()
+  from openhtf import util  # pylint: disable=g-import-not-at-top
+  from openhtf.plugs import user_input  # pylint: disable=g-import-not-at-top
+  sched, value = explore.run_under_scheduler(
+      scenario_u(ops), choices, focus_targets=[util.SubscribableStateMixin, user_input.UserInput],
+      focus_files=('openhtf/util/__init__.py', 'openhtf/plugs/user_input.py'), max_steps=40000)
+  result = {'value': value if isinstance(value, dict) else repr(value), 'failure': repr(sched.failure) if sched.failure else None}
+  result['outcome_key'] = repr(value)[:200] if sched.failure is None else 'failure %r' % (sched.failure,)
+  return explore.Exec(list(choices), sched.points, result, sched.failure, sched.steps, len(sched.trace), sched.state_hashes)
+
+
+def check_u(ops):
+  def check(ex):
+    rep = {'part': 'U', 'ops': list(ops), 'choices': ex.choices}
+    tag = '>'.join(ops)
+    v = ex.result['value']
+    if ex.failure is not None or not isinstance(v, dict):
+      return [('U:%s:%s' % (tag, type(ex.failure).__name__ if ex.failure else 'harness-exception'),
+               'UserInput plug driven through %r with two watchers: %s / %s' % (list(ops), ex.failure, v), rep)]
+    out = []
+    for who, seen, now in v['missed']:
+      out.append(('U:%s:change-without-notification' % tag, 'watcher %s holds the prompt state %r while the plug says %r, and its '
+                  'event was never set' % (who, seen, now), rep))
+    return out
+  return check
+
+
+def _u_default(seq):
+  ex = execute_u(seq, [])
+  return check_u(seq)(ex), ex.steps
+
+
+def u_sequences(tier):
+  import itertools  # pylint: disable=g-import-not-at-top
+  depth = 3 if tier == 'quick' else 4
+  for d in range(1, depth + 1):
+    for seq in itertools.product(U_OPS, repeat=d):
+      if 'start' in seq or 'prompt_timeout' in seq:
+        yield list(seq)
 
 
 def scenario_s(mode):
@@ -462,6 +592,21 @@ def run(tier):
     rep.add_part('Q watcher until quiescence on a real Test.execute() ending %s' % mode, states=max(1, r['states']), transitions=r['steps'],
                  traces_validated_against_impl=r['executions'], deviation_bound=1, distinct_outcomes=len(r['outcomes']),
                  exhaustive=not r['capped'], decision_points_default=r['default_points'], samples=r['samples'] or [{'choices': []}])
+  # U: every operation sequence in the default schedule (the plug's own timeouts are virtual); the short ones also
+  # under all schedules with one preemption
+  useqs = list(u_sequences(tier))
+  ures = common.pmap(_u_default, useqs, chunksize=4)
+  for seq, (viols, steps) in zip(useqs, ures):
+    rep.merge_violations(viols)
+  nu, eu, su = len(useqs), len(useqs), sum(r[1] for r in ures)
+  for seq in ([['prompt_timeout'], ['start', 'respond'], ['start', 'remove'], ['start', 'wait_timeout']] if tier == 'quick'
+              else [s for s in useqs if len(s) <= 2]):
+    r = explore.explore('U:%r' % (seq,), lambda ch, seq=seq: execute_u(seq, ch), check_u(seq), 1, cap=20000)
+    rep.merge_violations(r['violations'])
+    eu += r['executions']
+    su += r['steps']
+  rep.add_part('U UserInput plug, operation sequences, two watchers', states=max(1, nu), transitions=su, traces_validated_against_impl=eu,
+               sequences=nu, exhaustive=True, samples=[{'ops': U_OPS, 'depth': 3 if tier == 'quick' else 4}])
   bound_s = 2 if tier == 'quick' else 3
   for mode in ('abort', 'stop', 'timeout', 'raise', 'normal'):
     r = explore.explore('S:' + mode, lambda ch, mode=mode: execute_s(mode, ch), check_r('S-' + mode), bound_s,
@@ -490,6 +635,9 @@ def replay(art):
   elif r['part'] == 'S':
     ex = execute_s(r['mode'], r['choices'])
     bad = check_r('S-' + r['mode'])(ex)
+  elif r['part'] == 'U':
+    ex = execute_u(r['ops'], r['choices'])
+    bad = check_u(r['ops'])(ex)
   elif r['part'] == 'Q':
     ex = execute_q(r['mode'], r['choices'])
     bad = check_q(r['mode'])(ex)
